@@ -279,6 +279,9 @@ func lockStressEngine(rng *Rng, n int, out *Out, args map[string]string) {
 				if r.Chance(3) {
 					a = addrs[3]
 				}
+				if r.Chance(2) {
+					a = "127.0.0.1:99999" // cannot even be resolved (port out of range): the earliest failure exit of a listen
+				}
 				if len(held) > 0 && r.Chance(55) {
 					i := r.Intn(len(held))
 					held[i].Close()
